@@ -33,18 +33,23 @@ fn gen_stream(rng: &mut Rng, small: bool, tbase: u64, near_ties: bool, dmode: u8
             if !rng.chance(dens) || (1 + q as u64) == (tbase + 1 + t as u64) {
                 continue;
             }
-            let k = if small { rng.usize(3) } else { rng.usize(6) };
+            let k = if near_ties { rng.usize(2) } else if small { rng.usize(3) } else { rng.usize(6) };
             // one positional weight per pair (the engines take the pair's weight from any element)
             let w = if rng.chance(0.85) { Some((rng.uniform(0.05, 0.95) * 1000.0).round() as f32 / 1000.0) } else { None };
             if k == 0 && rng.chance(0.5) {
                 s.push(Elt { q: 1 + q as u64, t: tbase + 1 + t as u64, w, d: None });
             }
+            let mut prev: Option<f32> = None;
             for _ in 0..k {
-                let d = if rng.chance(0.08) {
+                // (a vote may repeat an earlier distance of the same pair bit for bit: votes are a multiset)
+                let d = if prev.is_some() && rng.chance(0.15) {
+                    prev
+                } else if rng.chance(0.08) {
                     None
                 } else if near_ties {
-                    // claims whose weights differ only by a few f32 ulps: still ordered by weight
-                    Some(f32::from_bits(0.5f32.to_bits() + rng.usize(6) as u32))
+                    // claims whose weights differ by 8..24 f32 ulps (5e-7..1.4e-6): clearly above the rounding noise of a
+                    // one-vote weight at this magnitude (1.2e-7), still ordered by weight
+                    Some(f32::from_bits(0.5f32.to_bits() + 8 * rng.usize(4) as u32))
                 } else if dmode == 1 {
                     // every distance negative (the library's own cosine() ranges over [-1, 1])
                     Some(-(rng.uniform(0.0, 1.0) as f32).max(1e-3))
@@ -53,6 +58,9 @@ fn gen_stream(rng: &mut Rng, small: bool, tbase: u64, near_ties: bool, dmode: u8
                 } else {
                     Some(rng.uniform(0.0, 2.0) as f32)
                 };
+                if d.is_some() {
+                    prev = d;
+                }
                 s.push(Elt { q: 1 + q as u64, t: tbase + 1 + t as u64, w, d });
             }
         }
@@ -110,7 +118,7 @@ fn check_topn(rep: &mut Report, idx: u64, stream: &[Elt], n: usize, maxd: f32, m
         // each returned (track, weight) is a qualifying claim with the reference weight
         for (t, w) in &got {
             match cl.get(&(*q, *t)) {
-                Some((_, rw)) if (rw - w).abs() <= 1e-9 * rw.abs().max(1.0) => {}
+                Some((_, rw)) if (rw - w).abs() <= vh::votingref::noise().max(1e-12 * rw.abs()) => {}
                 other => rep.violation("C17/topn/weight-or-membership", idx, json!({"ctx": ctx, "query": q, "track": t, "weight": w, "reference": other.map(|x| x.1)})),
             }
         }
@@ -150,7 +158,7 @@ fn check_best(rep: &mut Report, idx: u64, stream: &[Elt], maxd: f32, minv: usize
                     rep.violation("C17/bestfit/track-awarded-twice", idx, json!({"ctx": ctx, "track": t, "result": res}));
                 }
                 match cl.get(&(*q, *t)) {
-                    Some((_, rw)) if (rw - w).abs() <= 1e-9 * rw.abs().max(1.0) => {}
+                    Some((_, rw)) if (rw - w).abs() <= vh::votingref::noise().max(1e-12 * rw.abs()) => {}
                     other => rep.violation("C17/bestfit/weight-or-membership", idx, json!({"ctx": ctx, "query": q, "track": t, "weight": w, "reference": other.map(|x| x.1)})),
                 }
             }
@@ -209,7 +217,7 @@ fn main() {
     let cli = Cli::parse();
     let mut rep = Report::new("C17", &cli);
     rep.note("rule", json!("case = result stream over <= 6 queries x <= 6 tracks x 0..5 distances per pair (missing distances / missing weights included) with random N, min_votes, max_distance, threshold; every 4th case is a small stream (<= 7 elements) that is run in ALL its permutations, larger ones in 50 random permutations. TopN / BestFit / Hungarian (SortVoting) / VisualVoting outputs are compared with references written from the statement (filter <= max_distance, group, >= min_votes, weight = sum(max seen - d), order, top-N; a track goes to its greatest-weight claimant, every qualifying claim yields an element; Hungarian: every query of the stream gets one track or itself, no track twice, objective optimal) and with their own output on the permuted stream. Near-ties (weights within 1e-6 relative) downgrade the comparison and are counted. Non-trivial: at least two queries compete for one track with qualifying claims; distinct by stream hash."));
-    rep.note("assumptions", json!(["the tracker-specific engines (Hungarian, Visual) see disjoint query / track id spaces, as in the trackers; the generic engines (top-N, best-fit) are also run with overlapping id spaces", "finite distances >= -1 (the range of the library's own euclidean / cosine functions; 30% of the streams contain negative distances, half of those only negative ones) and non-negative positional weights", "weights are tied only when equal up to f64 summation rounding (1e-12 relative)"]));
+    rep.note("assumptions", json!(["the tracker-specific engines (Hungarian, Visual) see disjoint query / track id spaces, as in the trackers; the generic engines (top-N, best-fit) are also run with overlapping id spaces", "finite distances >= -1 (the range of the library's own euclidean / cosine functions; 30% of the streams contain negative distances, half of those only negative ones) and non-negative positional weights", "a weight is the real-number sum over exact f32 inputs; weight values are compared, and two weights are treated as tied, within twice the rounding an f32 evaluation of the terms may introduce (votes x 2^-23 x largest magnitude in the stream)"]));
     let n = cli.cases(40_000, 400_000);
     for idx in cli.index_range(n) {
         let mut rng = Rng::for_case(cli.seed, cli.shard, idx);
